@@ -1017,8 +1017,18 @@ func (h *hist) consume(names []enc.Name, scripts []string) string {
 	n.mu.Unlock()
 	var mu sync.Mutex
 	recs := make([][]cbRec, len(names))
+	// the application passes every name as a slice with spare capacity: a prefix of a longer name it keeps
+	// (object /obj asked for with known[:k] of /obj/v=1, a name built in a reused buffer). What lies behind the slice is
+	// the application's memory.
+	sentinel := enc.NewStringComponent(enc.TypeGenericNameComponent, "caller-owned")
+	held := make([]enc.Name, len(names))
 	for i, name := range names {
 		i := i
+		buf := make(enc.Name, len(name), len(name)+2)
+		copy(buf, name)
+		buf[:len(name)+1][len(name)] = sentinel
+		held[i] = buf
+		name = buf
 		h.cons.Consume(name, func(st *object.ConsumeState) bool {
 			b := st.Content()
 			mu.Lock()
@@ -1085,6 +1095,12 @@ func (h *hist) consume(names []enc.Name, scripts []string) string {
 	}
 	mu.Unlock()
 	out += fmt.Sprintf(" fin=%d", fin)
+	for i, b := range held {
+		if !b[:len(b)+1][len(b)].Equal(sentinel) {
+			out += fmt.Sprintf(" overwrote=%d", i+1) // Consume wrote into the application's memory behind the name
+			break
+		}
+	}
 	n.mu.Lock()
 	if n.sibCalls > 0 {
 		// a sibling handler must never see an Interest for a packet of the objects
